@@ -166,6 +166,7 @@ func (e *Eval) Prepare(flags ...[]byte) error {
 	// variable, so that the virtual machine knows it should
 	// run a series of optimizations.
 	//
+	_, hostSet := e.environment.Get("OPTIMIZE")
 	if optimize {
 		e.environment.Set("OPTIMIZE", &object.Boolean{Value: true})
 	}
@@ -179,6 +180,15 @@ func (e *Eval) Prepare(flags ...[]byte) error {
 	// before Execute/Run are invoked - and we only take the speed hit
 	// once.
 	e.machine = vm.New(e.constants, e.instructions, e.functions, e.environment)
+
+	//
+	// The variable was only a message for the virtual machine: unless
+	// our host set it, remove it again.  Otherwise scripts could see
+	// it, and a later Prepare with NoOptimize would still optimize.
+	//
+	if optimize && !hostSet {
+		e.environment.Unset("OPTIMIZE")
+	}
 
 	//
 	// Setup our context
